@@ -97,8 +97,8 @@ def run(tier: str) -> int:
             continue
         tid += 1
         tr = r["tr"]
-        traces.append(dict(id=tid, kind="doc", len_off=tr["len_off"], len_on=tr["len_on"], nl_same=tr["nl_same"],
-                           diffs=[dict(c=d["c"], d=d["d"], prot=d["prot"]) for d in tr["diffs"]]))
+        traces.append(dict(id=tid, kind="doc", len_off=tr["len_off"], len_on=tr["len_on"], nl_same=tr["nl_same"], trunc=tr["trunc"],
+                           diffs=[dict(c=d["c"], d=d["d"], prot=d["prot"], seg=d["seg"]) for d in tr["diffs"]]))
         metas[tid] = dict(kind="doc", doc=job[0], opts=job[2], off=r["off"], on=r["on"],
                           diffs=[(d["pos"], r["off"][max(0, d["pos"] - 8): d["pos"] + 8], d["c"], d["d"], d["prot"]) for d in tr["diffs"][:12]])
         if tr["diffs"]:
